@@ -566,7 +566,7 @@ where
 	{
 		async {
 			let batch = batch.build()?;
-			let id = self.id_manager.next_request_id();
+			let id = self.id_manager.next_batch_request_id(batch.len());
 			let id_range = generate_batch_id_range(id, batch.len() as u64)?;
 
 			let mut b = Batch::with_capacity(batch.len());
